@@ -399,7 +399,18 @@ static int do_run(const Args &a)
 		p.variant = a.cfg.variant;
 		st.plans++;
 		done++;
+		uint64_t hbefore = st.exec_hash;
+		st.exec_hash = 0;
 		Verdict v = e->judge(p, st, true);
+		{
+			uint64_t h = hash_str(hash_mix(st.exec_hash, v.ok), v.cls);
+			st.exec_hash = hash_mix(hbefore, h);
+			if (a.cfg.iopt("hashes", 0)) {
+				char hb[32];
+				snprintf(hb, sizeof(hb), "%016llx", (unsigned long long)h);
+				out_line("{\"type\":\"hash\",\"index\":" + std::to_string(i) + ",\"h\":\"" + hb + "\"}");
+			}
+		}
 		if (v.ok)
 			continue;
 		if (v.harness) {
